@@ -460,7 +460,7 @@ func ruleC20(c *Ctx) {
 	c.census("C20-TREE", "other consumers of a transaction list on the hover path", len(consumers), 1)
 	want := map[ssa.Value]bool{}
 	for _, u := range listCalcs {
-		got := allTxCalls(sliceUp(ciH, u.arg, u.f))
+		got := allTxCalls(sliceUpN(ciH, u.arg, u.f, 8))
 		for v := range got {
 			want[v] = true
 		}
@@ -468,7 +468,7 @@ func ruleC20(c *Ctx) {
 			"balances are summed over the resolved tree's AllTransactions()", "balances are not computed from the resolved tree's AllTransactions()")
 	}
 	for _, u := range consumers {
-		got := allTxCalls(sliceUp(ciH, u.arg, u.f))
+		got := allTxCalls(sliceUpN(ciH, u.arg, u.f, 8))
 		same := len(want) > 0
 		for v := range want {
 			if !got[v] {
